@@ -1,13 +1,21 @@
-"""C03: message constructors and parseMessage vs Model/Message.v; oracles from the property text.
+"""C03: message constructors and parseMessage vs Model/Message.v (correspondence) and vs
+Spec/MsgSpec.v (oracle).
 
 case kinds
-  build   : construct a message of one of the 4 classes (random subset of optional fields, flags, typed body),
-            compare raw bytes with the model, parse them back (implementation and model) and check that
-            type, serial, flags, every field, signature and body are recovered; well-formedness of the bytes
-  foreign : the specification encoding of a message (Spec/WireSpec.v enc_seq for header and body, either byte
-            order, fields in random order, unknown field codes) parsed by implementation and model
-  invalid : a constructor call with one invalid coordinate (path / interface / member / destination / error name)
-            must raise
+  build   : construct a message of one of the 4 classes (subset of optional fields, flags, typed body in random
+            Python shapes).  Correspondence: rawHeader / rawPadding / rawBody and the serial counter against the
+            model; parseMessage on the produced bytes against the model.  Oracle: the bytes are the specification
+            encoding msg_enc of the message (little-endian, fields in code order, serial = counter); the layout
+            named in the property text (fixed part, body length, 8-byte padding of zeros, array length); serial
+            non-zero, never seen before in this process, equal to the one in the header; the frame length computed
+            from the first 16 bytes; parsing recovers type, serial, flags, every field, signature, read-back body.
+  foreign : the specification encoding of a wire message in either byte order, fields shuffled, unknown field
+            codes, now and then a repeated field; parsed by the implementation and the model; oracle = what the
+            specification says a receiver recovers (Spec/MsgSpec.v recovered_fields / recovered_body).
+  invalid : a constructor call with one grammar-invalid name (path / interface / member / destination / error
+            name); oracle: the grammar (Spec/Grammar.v) rejects the name => the constructor must raise.
+  badbody : a body that does not conform to its signature; correspondence of success/failure and of the counter.
+  toolong : a message of more than 2^27 bytes must be refused (implementation only; the model side is the theorem).
 """
 import random
 import struct
@@ -17,13 +25,17 @@ from harness import marshal_common as mc
 from harness import c01
 
 ASSUMPTIONS = c01.ASSUMPTIONS + [
-    'the 128 MiB limit is exercised against the implementation only in the thorough tier (one case); the model side of it is the theorem',
+    'the 128 MiB limit is exercised against the implementation only (one case per run); the model side of it is the theorem C03_unconstructible',
+    'DBusMessage._nextSerial is read before and after every constructor call; the model is given the value before the call',
+    'after a failed constructor call only "the counter did not go backwards" is compared (what the freshness theorem needs), after a successful one the exact value',
+    'parseMessage is called with an empty descriptor list; descriptor passing is C20',
 ]
 
 HDR_TS = ['y', 'y', 'y', 'y', 'u', 'u', ['a', ['(', ['y', 'v']]]]
 FIELD_TY = {1: 'o', 2: 's', 3: 's', 4: 's', 5: 'u', 6: 's', 7: 's', 8: 'g', 9: 'u'}
 ATTR = {1: 'path', 2: 'interface', 3: 'member', 4: 'error_name', 5: 'reply_serial', 6: 'destination', 7: 'sender',
         8: 'signature', 9: 'unix_fds'}
+CODE = {v: k for k, v in ATTR.items()}
 NAMES = {
     'path': ['/', '/a', '/org/freedesktop/DBus', '/a/b_c/D1'],
     'interface': ['a.b', 'org.freedesktop.DBus', 'A_1.b2.C'],
@@ -39,6 +51,13 @@ BAD = {
     'error_name': ['', 'a', 'a.', 'a..b', '1.a'],
     'destination': ['', 'a', 'a.', ':1.', ':.a', 'a:b.c', '1a.b', 'a..b', 'a.b!'],
 }
+REQ = {1: ['path', 'member'], 2: ['reply_serial'], 3: ['error_name', 'reply_serial'], 4: ['path', 'member', 'interface']}
+OPT = {1: ['interface', 'destination'], 2: ['destination'], 3: ['destination', 'sender'], 4: ['destination']}
+# bodies that do not conform to their signature, in shapes the model represents: (signature, values)
+BAD_BODIES = [('i', ['x']), ('y', [256]), ('y', [-1]), ('u', [2**32]), ('n', [40000]), ('s', ['a\0b']), ('o', ['nopath']),
+              ('o', ['/a/']), ('s', [5]), ('ai', [[1, 'x']]), ('(ii)', [[1]]), ('(ii)', [5]), ('a', [[1]]), ('(i', [[1]]),
+              ('z', [1]), ('ay', [[1, 300]]), ('a{sv}', [{'k': None}]), ('v', [None]), ('g', ['é']), ('b', [[]]),
+              ('ii', [1]), ('i', [1, 2]), ('i', [])]
 
 
 def gen_body(rng, depth=2):
@@ -50,55 +69,92 @@ def gen_body(rng, depth=2):
     return {'ts': ts, 'ws': ws}
 
 
+def exhaustive_builds():
+    """4 types x every subset of the optional fields x both flags x {no signature, empty signature, a body}"""
+    body = {'ts': ['s', ['a', 'i']], 'ws': ['hi', [1, -2]]}
+    for mt in (1, 2, 3, 4):
+        opt = OPT[mt]
+        for mask in range(1 << len(opt)):
+            for er in ((True, False) if mt == 1 else (True,)):
+                for au in ((True, False) if mt == 1 else (True,)):
+                    for sigmode in (0, 1, 2):
+                        c = {'kind': 'build', 'mt': mt, 'er': er, 'au': au, 'fields': {}, 'shape': 7,
+                             'body': body if sigmode == 2 else None, 'sigmode': sigmode}
+                        for a in REQ[mt]:
+                            c['fields'][a] = NAMES[a][1 % len(NAMES[a])] if a != 'reply_serial' else 77
+                        for i, a in enumerate(opt):
+                            if mask >> i & 1:
+                                c['fields'][a] = NAMES[a][0]
+                        yield c
+
+
 def gen_cases(ctx):
     rng = ctx.rng
-    for _ in range(ctx.n(1500, 30000)):
+    for c in exhaustive_builds():
+        yield c
+    # every body signature of at most 2 (thorough: 3) characters, as a constructed and as a foreign message
+    for j, ts in enumerate(c01.small_types(ctx.n(2, 3))):
+        body = {'ts': ts, 'ws': [c01.canonical_w(rng, t) for t in ts]}
+        mt = 1 + j % 4
+        fields = {a: (NAMES[a][0] if a != 'reply_serial' else 3) for a in REQ[mt]}
+        yield {'kind': 'build', 'mt': mt, 'er': True, 'au': j % 3 != 0 or mt != 1, 'fields': fields, 'body': body,
+               'shape': rng.randrange(1 << 30), 'sigmode': 2}
+        yield {'kind': 'foreign', 'mt': mt, 'flags': j % 4, 'serial': 1 + j,
+               'fields': [[CODE[a], FIELD_TY[CODE[a]], v] for a, v in fields.items()], 'body': body, 'le': j % 2 == 0,
+               'sigpos': j, 'sigmode': 0}
+    deep = [2] if ctx.quick else [2, 2, 3, 4]
+    for _ in range(ctx.n(1500, 60000)):
         mt = rng.choice([1, 2, 3, 4])
         c = {'kind': 'build', 'mt': mt, 'er': rng.random() < 0.6, 'au': rng.random() < 0.6,
-             'fields': {}, 'body': gen_body(rng), 'shape': rng.randrange(1 << 30), 'sigmode': rng.choice([0, 0, 0, 1, 2])}
-        req = {1: ['path', 'member'], 2: ['reply_serial'], 3: ['error_name', 'reply_serial'], 4: ['path', 'member', 'interface']}[mt]
-        opt = {1: ['interface', 'destination'], 2: ['destination'], 3: ['destination', 'sender'], 4: ['destination']}[mt]
-        for a in req:
-            c['fields'][a] = rng.choice(NAMES[a]) if a != 'reply_serial' else rng.choice([1, 2, 77, 2**32 - 1])
-        for a in opt:
+             'fields': {}, 'body': gen_body(rng, rng.choice(deep)), 'shape': rng.randrange(1 << 30), 'sigmode': rng.choice([0, 0, 0, 1, 2])}
+        if mt != 1:
+            c['er'] = c['au'] = True          # only MethodCallMessage takes the flags
+        for a in REQ[mt]:
+            c['fields'][a] = rng.choice(NAMES[a]) if a != 'reply_serial' else rng.choice([0, 1, 2, 77, 2**32 - 1])
+        for a in OPT[mt]:
             if rng.random() < 0.5:
                 c['fields'][a] = rng.choice(NAMES[a])
         yield c
-    for _ in range(ctx.n(1500, 20000)):
+    for _ in range(ctx.n(1500, 40000)):
         mt = rng.choice([1, 2, 3, 4])
         fields = []
         codes = {1: [1, 3], 2: [5], 3: [4, 5], 4: [1, 2, 3]}[mt] + [c for c in (2, 6, 7) if rng.random() < 0.5]
-        body = gen_body(rng)
+        codes = sorted(set(codes))
+        body = gen_body(rng, rng.choice(deep))
         if rng.random() < 0.3:
-            codes += [rng.choice([0, 10, 42, 200])]
+            codes += [rng.choice([0, 10, 42, 200, 255])]
         if rng.random() < 0.1:
             codes += [rng.choice(codes)]          # a repeated field: the later one wins
         rng.shuffle(codes)
         for code in codes:
             if code in FIELD_TY and code not in (8, 9):
                 a = ATTR[code]
-                v = rng.choice(NAMES[a]) if a != 'reply_serial' else rng.choice([1, 9, 2**32 - 1])
+                v = rng.choice(NAMES[a]) if a != 'reply_serial' else rng.choice([0, 1, 9, 2**32 - 1])
                 fields.append([code, FIELD_TY[code], v])
             else:
-                fields.append([code, rng.choice(['s', 'u', 'ay']), None])
-        yield {'kind': 'foreign', 'mt': mt, 'flags': rng.choice([0, 0, 1, 2, 3]), 'serial': rng.choice([1, 5, 2**32 - 1]),
-               'fields': fields, 'body': body, 'le': rng.random() < 0.5, 'sigpos': rng.randrange(100)}
-    for mt, attr, arg in [(1, 'path', 'path'), (1, 'member', 'member'), (1, 'interface', 'interface'), (1, 'destination', 'destination'),
-                          (2, 'destination', 'destination'), (3, 'error_name', 'error_name'), (3, 'destination', 'destination'),
-                          (4, 'path', 'path'), (4, 'member', 'member'), (4, 'interface', 'interface'), (4, 'destination', 'destination')]:
-        for bad in BAD[attr]:
+                t = rng.choice(['s', 'u', 'ay'])
+                fields.append([code, t if t != 'ay' else ['a', 'y'], {'s': 'zz', 'u': 7, 'ay': [1, 2]}[t]])
+        sigmode = 0
+        if body is None and rng.random() < 0.2:
+            sigmode = 1                           # an empty SIGNATURE field, no body
+        yield {'kind': 'foreign', 'mt': mt, 'flags': rng.choice([0, 0, 1, 2, 3, 4, 7, 255]),
+               'serial': rng.choice([1, 5, 2**31, 2**32 - 1]),
+               'fields': fields, 'body': body, 'le': rng.random() < 0.5, 'sigpos': rng.randrange(100), 'sigmode': sigmode}
+    for mt, attr in [(1, 'path'), (1, 'member'), (1, 'interface'), (1, 'destination'),
+                     (2, 'destination'), (3, 'error_name'), (3, 'destination'),
+                     (4, 'path'), (4, 'member'), (4, 'interface'), (4, 'destination')]:
+        for bad in BAD[attr] + NAMES[attr if attr != 'error_name' else 'error_name'][:1]:
             yield {'kind': 'invalid', 'mt': mt, 'attr': attr, 'value': bad}
-    if not ctx.quick:
-        yield {'kind': 'toolong'}
+    for i, (sig, vals) in enumerate(BAD_BODIES):
+        yield {'kind': 'badbody', 'mt': 1 + i % 4, 'sig': sig, 'vals': vals}
+    yield {'kind': 'toolong'}
 
 
-def build_impl(message, c, vals, sig):
-    f = c['fields']
-    mt = c['mt']
+def build_impl(message, mt, f, vals, sig, er=True, au=True):
     if mt == 1:
         return message.MethodCallMessage(f.get('path'), f.get('member'), interface=f.get('interface'),
                                          destination=f.get('destination'), signature=sig, body=vals,
-                                         expectReply=c['er'], autoStart=c['au'])
+                                         expectReply=er, autoStart=au)
     if mt == 2:
         return message.MethodReturnMessage(f.get('reply_serial'), body=vals, destination=f.get('destination'), signature=sig)
     if mt == 3:
@@ -108,12 +164,9 @@ def build_impl(message, c, vals, sig):
                                  signature=sig, body=vals)
 
 
-CODE = {v: k for k, v in ATTR.items()}
-
-
-def model_attrs(c, sig):
+def model_attrs(fields, sig):
     out = []
-    for a, v in c['fields'].items():
+    for a, v in fields.items():
         if a == 'reply_serial':
             out.append([CODE[a], [9, 117, [0, v]]])
         else:
@@ -123,13 +176,26 @@ def model_attrs(c, sig):
     return out
 
 
+def construct_line(legacy, mt, er, au, fields, sig, vals, serial0):
+    body_form = [5, [mc.pv_form(v) for v in vals]] if vals is not None else [10]
+    return '(3 1 %d %d %d %d %s %s %d ())' % (legacy, mt, er, au, common.dump(model_attrs(fields, sig)),
+                                              common.dump(body_form), serial0)
+
+
+def spec_line(le, mt, flags, serial, fields, body):
+    """(3 4 ...): fields = [[code, type tree, wire value] ...]"""
+    fs = [[code, mc.t_sexp(t), mc.w_sexp(t, w)] for code, t, w in fields]
+    tss = [mc.t_sexp(t) for t in body['ts']] if body else []
+    wss = [mc.w_sexp(t, w) for t, w in zip(body['ts'], body['ws'])] if body else []
+    return '(3 4 %d %d %d %d %s %s %s ())' % (le, mt, flags, serial, common.dump(fs), common.dump(tss), common.dump(wss))
+
+
 def obs_parsed(m):
-    """canonical observation of a parsed message object"""
+    """canonical observation of a parsed message object: what the property says is recovered"""
     attrs = {}
     for code, a in ATTR.items():
-        v = m.__dict__.get(a, None)
-        if v is not None or a in m.__dict__:
-            attrs[code] = mc.pv_form(v)
+        if a in m.__dict__:
+            attrs[code] = mc.pv_form(m.__dict__[a])
     body = m.__dict__.get('body', None)
     return [m._messageType, m.serial, 1 if m.expectReply else 0, 1 if m.autoStart else 0,
             attrs, None if body is None else [mc.pv_form(x) for x in body]]
@@ -140,18 +206,55 @@ def model_parsed(o):
         return ('err', o[1])
     attrs = {}
     for code, v in o[5]:
-        attrs[code] = v          # later entries win
+        attrs[code] = v          # setattr: later entries win
     body = o[6][0] if o[6] else None
     return ('ok', [o[1], o[2], o[3], o[4], attrs, body])
+
+
+def spec_recovered(o):
+    attrs = {}
+    for code, v in o[7]:
+        attrs[code] = v
+    body = o[8][0] if o[8] else None
+    return [o[3], o[4], o[5], o[6], attrs, body]
+
+
+def parse_impl(message, raw):
+    try:
+        return ('ok', obs_parsed(message.parseMessage(raw, [])))
+    except Exception as e:
+        return ('err', type(e).__name__)
+
+
+def layout_defect(hdr, pad, body, serial):
+    """the well-formedness clauses of the property text, checked directly on the bytes"""
+    if len(hdr) < 16 or hdr[0:1] != b'l' or hdr[3] != 1:
+        return 'bad fixed header'
+    if struct.unpack('<I', hdr[4:8])[0] != len(body):
+        return 'declared body length %d != body length %d' % (struct.unpack('<I', hdr[4:8])[0], len(body))
+    if pad != b'\0' * ((8 - len(hdr) % 8) % 8):
+        return 'header padding is not zero bytes to an 8-byte boundary'
+    if struct.unpack('<I', hdr[12:16])[0] + 16 != len(hdr):
+        return 'header array length does not match the header'
+    if struct.unpack('<I', hdr[8:12])[0] != serial:
+        return 'serial %r is not the one in the header' % (serial,)
+    return None
 
 
 def evaluate(ctx, cases, res):
     from txdbus import message, marshal, error
     cases = list(cases)
+    M = message.DBusMessage
     prep = {}
     lines = []
-    stats = {'build': 0, 'foreign': 0, 'invalid': 0}
-    # ---- stage 1: implementation + model lines ---------------------------------------------
+    stats = {'build': 0, 'foreign': 0, 'invalid': 0, 'badbody': 0, 'toolong': 0}
+    dist = {'types': {}, 'optional_subsets': {}, 'flags': {}, 'sigmodes': {}, 'byte_order': {}, 'body_codes': {},
+            'unknown_field_codes': 0, 'repeated_fields': 0}
+
+    def bump(d, k):
+        d[k] = d.get(k, 0) + 1
+
+    # ---- stage 1: run the constructors; model construct + specification lines --------------------
     for i, c in enumerate(cases):
         k = c['kind']
         if k == 'build':
@@ -161,215 +264,270 @@ def evaluate(ctx, cases, res):
                 shapes = mc.Shapes(srng, marshal)
                 vals = [shapes.py(t, w) for t, w in zip(c['body']['ts'], c['body']['ws'])]
                 if any(mc.has_none(v) for v in vals):
-                    prep[i] = None
-                    lines.append('(0)')
+                    prep[i] = None                # no Python value makes sigFromPy infer this variant type
+                    lines += ['(0)', '(0)', '(0)']
                     continue
                 sig = ''.join(mc.show(t) for t in c['body']['ts'])
             elif c['sigmode'] == 1:
-                sig = ''            # empty signature string, no body
-            serial0 = message.DBusMessage._nextSerial
+                sig = ''                          # empty signature string, no body
+            serial0 = M._nextSerial
             try:
-                m = build_impl(message, c, vals, sig)
-                im = ('ok', m.rawHeader, m.rawPadding, m.rawBody, m.serial, m)
+                m = build_impl(message, c['mt'], c['fields'], vals, sig, c['er'], c['au'])
+                im = ('ok', m.rawHeader, m.rawPadding, m.rawBody, m.serial)
             except Exception as e:
                 im = ('err', type(e).__name__)
-            prep[i] = (sig, vals, serial0, im)
-            body_form = [5, [mc.pv_form(v) for v in vals]] if vals is not None else [10]
-            lines.append('(3 1 0 %d %d %d %s %s %d %s)' % (
-                c['mt'], c['er'] if c['mt'] == 1 else 1, c['au'] if c['mt'] == 1 else 1,
-                common.dump(model_attrs(c, sig)), common.dump(body_form), serial0,
-                '(())' if c['mt'] == 1 else '()'))
+            serial1 = M._nextSerial
+            prep[i] = (sig, vals, serial0, serial1, im)
+            lines.append(construct_line(0, c['mt'], c['er'], c['au'], c['fields'], sig, vals, serial0))
+            # the wire message this constructor call denotes: fields in code order
+            fs = []
+            for code in sorted(ATTR):
+                a = ATTR[code]
+                if a in c['fields']:
+                    fs.append([code, FIELD_TY[code], c['fields'][a]])
+                elif a == 'signature' and sig is not None:
+                    fs.append([8, 'g', sig])
+            flags = (0 if c['er'] else 1) | (0 if c['au'] else 2)
+            lines.append(spec_line(1, c['mt'], flags, serial0, fs, c['body']))
+            # do the Python values conform to the signature (Spec/Conforms.v)?  By C02 the model's encoding of
+            # conforming values IS the specification encoding; where they differ the shape generator produced
+            # a value whose inferred variant type is not the intended one, and the case is outside the property
+            if vals is not None:
+                lines.append('(1 1 %s %s 0 1 ())' % (common.dump(sig.encode()), common.dump([5, [mc.pv_form(v) for v in vals]])))
+            else:
+                lines.append('(0)')
         elif k == 'foreign':
-            fields_t, fields_w = [], []
+            fl = [list(f) for f in c['fields']]
             body = c['body']
-            fl = list(c['fields'])
             if body is not None:
-                sig = ''.join(mc.show(t) for t in body['ts'])
-                fl.insert(c['sigpos'] % (len(fl) + 1), [8, 'g', sig])
-            ws_fields = []
-            for code, t, v in fl:
-                if v is None:
-                    v = {'s': 'zz', 'u': 7, 'ay': [1, 2]}[t]
-                    t = t if t != 'ay' else ['a', 'y']
-                ws_fields.append([code, {'vt': t, 'w': v}])
-            hdr_ws_proto = [108 if c['le'] else 66, c['mt'], c['flags'], 1, 0, c['serial'], ws_fields]
-            prep[i] = (fl, ws_fields, hdr_ws_proto)
-            tss = [mc.t_sexp(t) for t in (body['ts'] if body else [])]
-            wss = [mc.w_sexp(t, w) for t, w in zip(body['ts'], body['ws'])] if body else []
-            lines.append('(2 1 %s %s 0 %d)' % (common.dump(tss), common.dump(wss), c['le']))
+                fl.insert(c['sigpos'] % (len(fl) + 1), [8, 'g', ''.join(mc.show(t) for t in body['ts'])])
+            elif c.get('sigmode') == 1:
+                fl.insert(c['sigpos'] % (len(fl) + 1), [8, 'g', ''])
+            prep[i] = fl
+            lines.append(spec_line(c['le'], c['mt'], c['flags'], c['serial'], fl, body))
+            lines += ['(0)', '(0)']
         elif k == 'invalid':
+            f = {'path': '/a', 'member': 'M', 'interface': 'a.b', 'error_name': 'a.E', 'reply_serial': 1}
+            f[c['attr']] = c['value']
+            fields = {a: f[a] for a in REQ[c['mt']] + [c['attr']]}
+            serial0 = M._nextSerial
+            try:
+                build_impl(message, c['mt'], fields, None, None)
+                built = True
+            except Exception:
+                built = False
+            prep[i] = (fields, serial0, M._nextSerial, built)
             lines.append('(18 %s)' % common.dump(c['value']))
-        else:
+            lines.append(construct_line(0, c['mt'], 1, 1, fields, None, None, serial0))
             lines.append('(0)')
+        elif k == 'badbody':
+            f = {'path': '/a', 'member': 'M', 'interface': 'a.b', 'error_name': 'a.E', 'reply_serial': 1}
+            fields = {a: f[a] for a in REQ[c['mt']]}
+            serial0 = M._nextSerial
+            try:
+                build_impl(message, c['mt'], fields, c['vals'], c['sig'])
+                built = True
+            except Exception:
+                built = False
+            prep[i] = (fields, serial0, M._nextSerial, built)
+            lines.append(construct_line(0, c['mt'], 1, 1, fields, c['sig'], c['vals'], serial0))
+            lines += ['(0)', '(0)']
+        else:
+            lines += ['(0)', '(0)', '(0)']
     out1 = common.run_model(lines)
-    # ---- stage 2: parse own bytes / assemble foreign messages ---------------------------------
+
+    # ---- stage 2: parse (implementation, model, legacy model), frame length --------------------------
     lines2 = []
     stage2 = {}
     for i, c in enumerate(cases):
         k = c['kind']
-        if k == 'build' and prep[i] is not None:
-            sig, vals, serial0, im = prep[i]
-            if im[0] == 'ok':
-                raw = im[1] + im[2] + im[3]
-                try:
-                    pm = ('ok', obs_parsed(message.parseMessage(raw, [])))
-                except Exception as e:
-                    pm = ('err', type(e).__name__)
-                stage2[i] = (raw, pm)
-                lines2.append('(3 2 0 %s (()))' % common.dump(raw))
-                lines2.append('(0)')
-            else:
-                lines2 += ['(0)', '(0)']
+        raw = None
+        if k == 'build' and prep[i] is not None and prep[i][4][0] == 'ok':
+            im = prep[i][4]
+            raw = im[1] + im[2] + im[3]
+            le = 1
         elif k == 'foreign':
-            fl, ws_fields, hw = prep[i]
-            body_bytes = out1[i] if isinstance(out1[i], bytes) else b''
-            hw = list(hw)
-            hw[4] = len(body_bytes)
-            hdr_line = '(2 1 %s %s 0 %d)' % (common.dump([mc.t_sexp(t) for t in HDR_TS]),
-                                             common.dump([mc.w_sexp(t, w) for t, w in zip(HDR_TS, hw)]), c['le'])
-            stage2[i] = (body_bytes,)
-            lines2.append(hdr_line)
-            lines2.append('(0)')
+            sp = out1[3 * i]
+            raw = sp[0] + sp[1] + sp[2]
+            le = 1 if c['le'] else 0
+        if raw is not None:
+            stage2[i] = (raw, parse_impl(message, raw))
+            lines2.append('(3 2 0 %s (()))' % common.dump(raw))
+            lines2.append('(3 3 %d %s)' % (le, common.dump(raw + b'\x01\x02\x03')))
+            lines2.append('(3 2 1 %s (()))' % common.dump(raw))       # the pre-repair parseMessage (D04)
         else:
-            lines2 += ['(0)', '(0)']
+            lines2 += ['(0)', '(0)', '(0)']
     out2 = common.run_model(lines2)
-    lines3 = []
-    stage3 = {}
-    for i, c in enumerate(cases):
-        if c['kind'] == 'foreign':
-            hdr = out2[2 * i]
-            body_bytes = stage2[i][0]
-            raw = hdr + b'\0' * ((8 - len(hdr) % 8) % 8) + body_bytes
-            try:
-                pm = ('ok', obs_parsed(message.parseMessage(raw, [])))
-            except Exception as e:
-                pm = ('err', type(e).__name__)
-            stage3[i] = (raw, pm)
-            lines3.append('(3 2 0 %s (()))' % common.dump(raw))
-            lines3.append('(3 3 %d %s)' % (c['le'], common.dump(raw)))
-        elif c['kind'] == 'build' and i in stage2:
-            lines3.append('(3 3 1 %s)' % common.dump(stage2[i][0]))
-            lines3.append('(0)')
-        else:
-            lines3 += ['(0)', '(0)']
-    out3 = common.run_model(lines3)
-    # ---- compare -------------------------------------------------------------------------------
-    seen_serials = set()
+
+    # ---- compare ---------------------------------------------------------------------------------------
+    seen_serials = evaluate.seen_serials
+    legacy_d04 = legacy_d27 = nonconf = 0
     for i, c in enumerate(cases):
         k = c['kind']
         if k == 'build':
             if prep[i] is None:
                 continue
             stats['build'] += 1
-            sig, vals, serial0, im = prep[i]
-            res.count(c, nontrivial=True)
-            mo = out1[i]
-            mm = ('ok', mo[1], mo[2], mo[3]) if mo[0] == 1 else ('err', mo[1])
-            if im[0] != mm[0] or (im[0] == 'ok' and im[1:4] != mm[1:4]):
-                res.disagree(c, im[:4], mm, 'model_construct')
+            sig, vals, serial0, serial1, im = prep[i]
+            nontrivial = bool(c['body']) or len(c['fields']) > len(REQ[c['mt']]) or not c['er'] or not c['au']
+            res.count(c, nontrivial=nontrivial)
+            bump(dist['types'], c['mt'])
+            bump(dist['optional_subsets'], '%d:%s' % (c['mt'], '+'.join(sorted(a for a in c['fields'] if a in OPT[c['mt']])) or '-'))
+            bump(dist['flags'], '%d%d' % (c['er'], c['au']))
+            bump(dist['sigmodes'], 'body' if c['body'] else ('empty' if c['sigmode'] == 1 else 'none'))
+            if c['body']:
+                for t in c['body']['ts']:
+                    bump(dist['body_codes'], mc.show(t)[0])
+            mo = out1[3 * i]
+            sp = out1[3 * i + 1]
+            mm = ('ok', mo[1], mo[2], mo[3], serial0) if mo[0] == 1 else ('err', mo[1])
+            if im[0] != mm[0] or (im[0] == 'ok' and im[1:5] != mm[1:5]):
+                res.disagree(c, im, mm, 'model_construct')
+            if im[0] == 'ok' and serial1 != mo[-1]:
+                res.disagree(c, ('counter', serial0, serial1), ('counter', serial0, mo[-1]), 'model_counter')
+            if serial1 < serial0:
+                res.violate(c, 'the serial counter went backwards: %d -> %d' % (serial0, serial1), 'serial-counter-decreased')
+            conforming = True
+            if vals is not None:
+                mb = out1[3 * i + 2]
+                conforming = mb[0] == 1 and mb[2] == sp[2]
+            if not conforming:
+                nonconf += 1
             if im[0] != 'ok':
-                res.violate(c, 'a valid message could not be constructed: %s' % (im,), 'construct-fails')
+                if conforming:
+                    res.violate(c, 'a valid message could not be constructed: %s' % (im,), 'construct-fails')
                 continue
+            hdr, pad, body, serial = im[1], im[2], im[3], im[4]
             raw, pm = stage2[i]
-            mp = model_parsed(out2[2 * i])
+            mp = model_parsed(out2[3 * i])
             if pm[0] != mp[0] or (pm[0] == 'ok' and pm[1] != mp[1]):
                 res.disagree(c, pm, mp, 'model_parse_own')
-            # well-formedness (property text)
-            hdr, pad, body, serial = im[1], im[2], im[3], im[4]
-            why = None
-            if len(hdr) < 16 or hdr[0:1] != b'l' or hdr[3] != 1:
-                why = 'bad fixed header'
-            elif struct.unpack('<I', hdr[4:8])[0] != len(body):
-                why = 'declared body length %d != body length %d' % (struct.unpack('<I', hdr[4:8])[0], len(body))
-            elif pad != b'\0' * ((8 - len(hdr) % 8) % 8):
-                why = 'header padding is not zero bytes to an 8-byte boundary'
-            elif struct.unpack('<I', hdr[12:16])[0] + 16 != len(hdr):
-                why = 'header array length does not match the header'
-            elif serial == 0 or serial in seen_serials or struct.unpack('<I', hdr[8:12])[0] != serial:
-                why = 'serial %r is zero, reused, or not the one in the header' % (serial,)
-            elif out3[2 * i] != len(raw):
-                why = 'frame length computed from the first 16 bytes (%r) != message length %d' % (out3[2 * i], len(raw))
+            # oracle 1: the layout clauses of the property text, directly on the bytes (every constructed message)
+            why = layout_defect(hdr, pad, body, serial)
+            if why is None and (serial == 0 or serial in seen_serials or not (0 < serial < 2**32)):
+                why = 'serial %r is zero or was used before in this process' % (serial,)
+            if why is None and out2[3 * i + 1] != len(raw):
+                why = 'frame length computed from the first 16 bytes (%r) != message length %d' % (out2[3 * i + 1], len(raw))
             seen_serials.add(serial)
             if why:
                 res.violate(c, why, 'malformed-own-message')
-            # parse back recovers everything
+            if not conforming:
+                continue
+            # oracle 2: the bytes are the specification encoding of the message
+            if (hdr, pad, body) != (sp[0], sp[1], sp[2]):
+                res.violate(c, 'constructor bytes %s differ from the specification encoding %s'
+                            % ((hdr + pad + body).hex(), (sp[0] + sp[1] + sp[2]).hex()), 'not-spec-encoding')
+            # oracle 3: parsing the produced bytes recovers what the specification says
+            want = spec_recovered(sp)
             if pm[0] != 'ok':
                 res.violate(c, 'own message failed to parse: %s' % (pm,), 'parse-own-fails')
-            else:
-                want_attrs = {}
-                for a, v in c['fields'].items():
-                    want_attrs[CODE[a]] = [0, v] if a == 'reply_serial' else [3, v.encode('utf-8')]
-                if sig is not None:
-                    want_attrs[8] = [3, sig.encode('utf-8')]
-                want_body = None
-                if c['body'] is not None:
-                    want_body = [mc.expected(t, w) for t, w in zip(c['body']['ts'], c['body']['ws'])]
-                er = c['er'] if c['mt'] == 1 else True
-                au = c['au'] if c['mt'] == 1 else True
-                want = [c['mt'], serial, 1 if er else 0, 1 if au else 0, want_attrs, want_body]
-                if pm[1] != want:
-                    res.violate(c, 'parsing the produced bytes gave %r, constructed %r' % (pm[1], want), 'parse-own-differs')
+            elif pm[1] != want:
+                res.violate(c, 'parsing the produced bytes gave %r, constructed %r' % (pm[1], want), 'parse-own-differs')
+            # and what was constructed, independently of the extracted specification
+            want_attrs = {}
+            for a, v in c['fields'].items():
+                want_attrs[CODE[a]] = [0, v] if a == 'reply_serial' else [3, v.encode('utf-8')]
+            if sig is not None:
+                want_attrs[8] = [3, sig.encode('utf-8')]
+            want_body = [mc.expected(t, w) for t, w in zip(c['body']['ts'], c['body']['ws'])] if c['body'] else None
+            want2 = [c['mt'], serial, 1 if c['er'] else 0, 1 if c['au'] else 0, want_attrs, want_body]
+            if pm[0] == 'ok' and pm[1] != want2:
+                res.violate(c, 'parsing the produced bytes gave %r, constructed %r' % (pm[1], want2), 'parse-own-differs')
+            lp = model_parsed(out2[3 * i + 2])
+            if lp != mp:
+                legacy_d04 += 1
             res.sample({'kind': 'build', 'mt': c['mt'], 'raw': raw.hex()}, limit=3)
         elif k == 'foreign':
             stats['foreign'] += 1
+            fl = prep[i]
+            codes = [f[0] for f in fl]
             res.count(c, nontrivial=True)
-            raw, pm = stage3[i]
-            mp = model_parsed(out3[2 * i])
+            bump(dist['byte_order'], 'little' if c['le'] else 'big')
+            if any(code not in ATTR for code in codes):
+                dist['unknown_field_codes'] += 1
+            if len(set(codes)) != len(codes):
+                dist['repeated_fields'] += 1
+            raw, pm = stage2[i]
+            sp = out1[3 * i]
+            mp = model_parsed(out2[3 * i])
             if pm[0] != mp[0] or (pm[0] == 'ok' and pm[1] != mp[1]):
                 res.disagree(c, pm, mp, 'model_parse_foreign')
-            fl, ws_fields, hw = prep[i]
-            want_attrs = {}
-            for code, t, v in fl:
-                if code in ATTR and v is not None:
-                    want_attrs[code] = mc.expected(t, v)
-                elif code in ATTR:
-                    vt = ws_fields[[x[0] for x in ws_fields].index(code)][1]
-                    want_attrs[code] = mc.expected(vt['vt'], vt['w'])
-            # later duplicates win
-            for code, vt in ws_fields:
-                if code in ATTR:
-                    want_attrs[code] = mc.expected(vt['vt'], vt['w'])
-            body = c['body']
-            want_body = [mc.expected(t, w) for t, w in zip(body['ts'], body['ws'])] if body else None
-            want = [c['mt'], c['serial'], 0 if c['flags'] & 1 else 1, 0 if c['flags'] & 2 else 1, want_attrs, want_body]
-            if pm[0] != 'ok':
+            want = spec_recovered(sp)
+            known = [code for code in codes if code in ATTR]
+            if len(set(known)) != len(known):
+                pass        # a repeated header field is not spec-conformant: correspondence only, no oracle
+            elif pm[0] != 'ok':
                 res.violate(c, 'spec-conformant foreign message failed to parse: %s' % (pm,), 'parse-foreign-fails')
             elif pm[1] != want:
                 res.violate(c, 'foreign message parsed to %r, it encodes %r' % (pm[1], want), 'parse-foreign-differs')
-            if out3[2 * i + 1] != len(raw):
-                res.violate(c, 'frame length from the first 16 bytes (%r) != message length %d' % (out3[2 * i + 1], len(raw)), 'frame-length')
+            if out2[3 * i + 1] != len(raw):
+                res.violate(c, 'frame length from the first 16 bytes (%r) != message length %d' % (out2[3 * i + 1], len(raw)), 'frame-length')
+            if model_parsed(out2[3 * i + 2]) != mp:
+                legacy_d04 += 1
             res.sample({'kind': 'foreign', 'le': c['le'], 'raw': raw.hex()}, limit=5)
-        elif k == 'invalid':
-            stats['invalid'] += 1
+        elif k in ('invalid', 'badbody'):
+            stats[k] += 1
             res.count(c, nontrivial=True)
-            kind_idx = {'path': 0, 'interface': 1, 'error_name': 2, 'destination': 3, 'member': 4}[c['attr']]
-            grammar_ok = out1[i][kind_idx][2]
-            f = {'path': '/a', 'member': 'M', 'interface': 'a.b', 'error_name': 'a.E', 'reply_serial': 1}
-            f[c['attr']] = c['value']
-            cc = {'mt': c['mt'], 'fields': {}, 'er': True, 'au': True}
-            need = {1: ['path', 'member'], 2: ['reply_serial'], 3: ['error_name', 'reply_serial'], 4: ['path', 'member', 'interface']}[c['mt']]
-            for a in need + [c['attr']]:
-                cc['fields'][a] = f[a]
-            try:
-                build_impl(message, cc, None, None)
-                built = True
-            except Exception:
-                built = False
-            if built and not grammar_ok:
-                res.violate(c, 'message constructed carrying %s=%r, which the DBus grammar rejects' % (c['attr'], c['value']),
-                            'carries-invalid-%s' % c['attr'])
+            fields, serial0, serial1, built = prep[i]
+            mo = out1[3 * i + (1 if k == 'invalid' else 0)]
+            if built != (mo[0] == 1):
+                res.disagree(c, ('built', built), ('model', mo), 'model_construct')
+            elif built and serial1 != mo[-1]:
+                res.disagree(c, ('counter', serial0, serial1), ('counter', serial0, mo[-1]), 'model_counter')
+            if serial1 < serial0:
+                res.violate(c, 'the serial counter went backwards: %d -> %d' % (serial0, serial1), 'serial-counter-decreased')
+            if k == 'invalid':
+                kind_idx = {'path': 0, 'interface': 1, 'error_name': 2, 'destination': 3, 'member': 4}[c['attr']]
+                grammar_ok = out1[3 * i][kind_idx][2]
+                if built and not grammar_ok:
+                    res.violate(c, 'message constructed carrying %s=%r, which the DBus grammar rejects' % (c['attr'], c['value']),
+                                'carries-invalid-%s' % c['attr'])
+                if not built and grammar_ok:
+                    res.violate(c, 'a message with the valid %s %r could not be constructed' % (c['attr'], c['value']), 'construct-fails')
         elif k == 'toolong':
+            stats['toolong'] += 1
             res.count(c, nontrivial=True)
+            serial0 = M._nextSerial
+            small = message.MethodReturnMessage(1, body=['x'], signature='s')
+            overhead = len(small.rawMessage) - 1
             try:
-                message.MethodReturnMessage(1, body=['x' * (2**27)], signature='s')
-                res.violate(c, 'a message of more than 2^27 bytes was constructed', 'too-long-constructed')
-            except error.MarshallingError:
+                m = message.MethodReturnMessage(1, body=['x' * (2**27 - overhead)], signature='s')
+                if len(m.rawMessage) != 2**27 or m.bodyLength != len(m.rawBody):
+                    res.violate(c, 'the message of exactly 2^27 bytes came out with %d bytes' % len(m.rawMessage), 'malformed-own-message')
+                del m
+            except Exception as e:
+                res.violate(c, 'a message of exactly 2^27 bytes could not be constructed: %s' % type(e).__name__, 'construct-fails')
+            try:
+                m = message.MethodReturnMessage(1, body=['x' * (2**27 - overhead + 1)], signature='s')
+                res.violate(c, 'a message of %d > 2^27 bytes was constructed' % len(m.rawMessage), 'too-long-constructed')
+                del m
+            except Exception:
                 pass
-    res.extra['kinds'] = stats
+            if M._nextSerial < serial0:
+                res.violate(c, 'the serial counter went backwards', 'serial-counter-decreased')
+    # legacy models as built-in mutants: does this run's input distinguish them from the current model?
+    d27 = common.run_model([construct_line(1, 1, 1, 1, {'path': '/a', 'member': 'M', 'interface': ''}, None, None, 1),
+                            construct_line(0, 1, 1, 1, {'path': '/a', 'member': 'M', 'interface': ''}, None, None, 1)])
+    legacy_d27 = 1 if d27[0][0] != d27[1][0] else 0
+    ex = res.extra
+    for kk, v in stats.items():
+        ex.setdefault('kinds', {})[kk] = ex.get('kinds', {}).get(kk, 0) + v
+    ex['distribution'] = dist
+    ex['legacy_variants_distinguished'] = {'D04 parseMessage ignores flags': legacy_d04 > 0,
+                                           'D27 empty interface not validated': bool(legacy_d27) and any(
+                                               c['kind'] == 'invalid' and c['value'] == '' for c in cases)}
+    ex['legacy_D04_cases'] = legacy_d04
+    ex['nonconforming_shapes_skipped'] = ex.get('nonconforming_shapes_skipped', 0) + nonconf
+
+
+evaluate.seen_serials = set()
 
 
 def run(ctx, res):
-    res.rule = ('4 message classes x random subsets of optional fields x flags x typed bodies from the C01 generator (build); '
-                'specification-encoded messages in either byte order with shuffled, unknown and repeated header fields (foreign); '
-                'constructor calls with one grammar-invalid coordinate (invalid); non-trivial: all; distinct by hash')
+    res.rule = ('exhaustively 4 message classes x every subset of optional fields x both flags x {no, empty, non-empty} signature, '
+                'then the same space with random names and typed bodies from the C01 generator in random Python shapes (build); '
+                'specification-encoded wire messages in either byte order with shuffled, unknown and repeated header fields, all '
+                'flag bytes (foreign); constructor calls with one grammar-invalid name (invalid) or a non-conforming body (badbody); '
+                'one message above 2^27 bytes.  Non-trivial: a build with a body, an optional field or a cleared flag; every other case')
+    evaluate.seen_serials = set()
     evaluate(ctx, gen_cases(ctx), res)
